@@ -148,6 +148,13 @@ func drawSource(r *sim.Run) *objSource {
 			return src
 		}
 	}
+	if t.Chance(80) {
+		var src *objSource
+		r.Guard("constructors", func() { src = drawConstructedSource(r) })
+		if src != nil {
+			return src
+		}
+	}
 	cf := objCorpus[t.Draw(len(objCorpus))]
 	data := cf.Data
 	name := cf.Name
@@ -255,5 +262,131 @@ func drawBuiltSource(r *sim.Run) *objSource {
 	src := &objSource{desc: fmt.Sprintf("encrypted-production(%s, with init=%v)", scheme, !noInit), bytes: stream, file: f}
 	src.nodes = collectNodes("enc", f)
 	r.Probe("object-source-encrypted")
+	return src
+}
+
+// drawConstructedSource: single boxes made through the public constructors with seeded arguments around the
+// boundaries of their length and count fields (descriptor payloads around 127/128 bytes, strings, KID lists, ...).
+func drawConstructedSource(r *sim.Run) *objSource {
+	t := r.T
+	rnd := t.Sub()
+	fill := func(n int) []byte {
+		b := make([]byte, n)
+		rnd.Fill(b)
+		return b
+	}
+	lens := []int{0, 1, 2, 5, 64, 100, 104, 105, 106, 120, 126, 127, 128, 129, 200, 255, 256, 300, 1000}
+	var b mp4.Box
+	var err error
+	name := ""
+	switch t.Draw(14) {
+	case 0:
+		n := lens[t.Draw(len(lens))]
+		b, name = mp4.CreateEsdsBox(fill(n)), fmt.Sprintf("CreateEsdsBox(%d-byte config)", n)
+	case 1:
+		n := lens[t.Draw(len(lens))]
+		b, name = mp4.CreateAudioSampleEntryBox("mp4a", uint16(1+t.Draw(8)), 16, uint16(8000+t.Draw(40000)), mp4.CreateEsdsBox(fill(n))), fmt.Sprintf("CreateAudioSampleEntryBox(mp4a, esds %d)", n)
+	case 2:
+		lang := c19Langs[t.Draw(len(c19Langs))]
+		b, name = mp4.CreateElng(lang), "CreateElng("+lang+")"
+	case 3:
+		var kids []string
+		for i := t.Draw(4); i > 0; i-- {
+			kids = append(kids, fmt.Sprintf("%032x", rnd.U64()))
+		}
+		n := lens[t.Draw(len(lens))]
+		b, err = mp4.NewPsshBox("edef8ba979d64acea3c827dcd51d21ed", kids, fill(n))
+		name = fmt.Sprintf("NewPsshBox(%d KIDs, %d data bytes)", len(kids), n)
+	case 4:
+		b, name = mp4.CreatePrftBox(byte(t.Draw(2)), uint32(t.Draw(32)), uint32(1+t.Draw(3)), mp4.NTP64(rnd.U64()), rnd.U64()>>uint(t.Draw(64))), "CreatePrftBox"
+	case 5:
+		strs := []string{"", "a", "http://www.w3.org/ns/ttml", "urn:x a b", string(fill(1 + t.Draw(40)))}
+		b, name = mp4.NewStppBox(strs[t.Draw(5)], strs[t.Draw(5)], strs[t.Draw(5)]), "NewStppBox"
+	case 6:
+		var es []mp4.SdtpEntry
+		for i := t.Draw(6); i > 0; i-- {
+			es = append(es, mp4.NewSdtpEntry(uint8(t.Draw(4)), uint8(t.Draw(4)), uint8(t.Draw(4)), uint8(t.Draw(4))))
+		}
+		b, name = mp4.CreateSdtpBox(es), fmt.Sprintf("CreateSdtpBox(%d)", len(es))
+	case 7:
+		var cb []string
+		for i := t.Draw(6); i > 0; i-- {
+			cb = append(cb, []string{"iso6", "cmfc", "dash", "mp41"}[t.Draw(4)])
+		}
+		if t.Bool() {
+			b, name = mp4.NewFtyp("iso6", uint32(t.Draw(3)), cb), fmt.Sprintf("NewFtyp(%d brands)", len(cb))
+		} else {
+			b, name = mp4.NewStyp("msdh", uint32(t.Draw(3)), cb), fmt.Sprintf("NewStyp(%d brands)", len(cb))
+		}
+	case 8:
+		sps := append([]byte(nil), c19AvcSPS...)
+		sps[1] = []byte{100, 100, 110, 122, 244, 44, 83, 86, 118, 128, 139, 134, 135}[t.Draw(13)]
+		var spss, ppss [][]byte
+		for i := 1 + t.Draw(2); i > 0; i-- {
+			spss = append(spss, sps)
+		}
+		for i := t.Draw(3); i > 0; i-- {
+			ppss = append(ppss, c19AvcPPS)
+		}
+		var a *mp4.AvcCBox
+		a, err = mp4.CreateAvcC(spss, ppss, t.Bool())
+		if err == nil {
+			if t.Bool() {
+				b = mp4.CreateVisualSampleEntryBox("avc1", 1280, 720, a)
+			} else {
+				b = a
+			}
+		}
+		name = fmt.Sprintf("CreateAvcC(profile %d, %d SPS, %d PPS)", sps[1], len(spss), len(ppss))
+	case 9:
+		var h *mp4.HvcCBox
+		h, err = mp4.CreateHvcC([][]byte{c19HevcVPS}, [][]byte{c19HevcSPS}, [][]byte{c19HevcPPS}, t.Bool(), t.Bool(), t.Bool(), t.Bool())
+		if err == nil {
+			b = h
+		}
+		name = "CreateHvcC"
+	case 10:
+		var hd *mp4.HdlrBox
+		hd, err = mp4.CreateHdlr([]string{"video", "audio", "subtitle", "text", "meta", "mdir", "clcp"}[t.Draw(7)])
+		if err == nil {
+			if t.Bool() {
+				b = mp4.CreateMetaBox(byte(t.Draw(2)), hd)
+			} else {
+				b = hd
+			}
+		}
+		name = "CreateHdlr/CreateMetaBox"
+	case 11:
+		if t.Bool() {
+			b, name = mp4.NewTfxdBox(rnd.U64()>>uint(t.Draw(64)), rnd.U64()>>uint(t.Draw(64))), "NewTfxdBox"
+		} else {
+			n := t.Draw(4)
+			ts, ds := make([]uint64, n), make([]uint64, n)
+			for i := range ts {
+				ts[i], ds[i] = rnd.U64()>>uint(t.Draw(64)), rnd.U64()>>uint(t.Draw(64))
+			}
+			b, name = mp4.NewTfrfBox(byte(n), ts, ds), fmt.Sprintf("NewTfrfBox(%d)", n)
+		}
+	case 12:
+		n := lens[t.Draw(len(lens))]
+		nm := []string{"zzzz", "abcd", "free", "x y "}[t.Draw(4)]
+		b, name = mp4.CreateUnknownBox(nm, uint64(8+n), fill(n)), fmt.Sprintf("CreateUnknownBox(%s, %d)", nm, n)
+	default:
+		if t.Bool() {
+			b, name = mp4.CreateCoLLBox(uint16(t.Draw(65536)), uint16(t.Draw(65536))), "CreateCoLLBox"
+		} else {
+			n := lens[t.Draw(len(lens))]
+			b, name = mp4.NewFreeBox(fill(n)), fmt.Sprintf("NewFreeBox(%d)", n)
+		}
+	}
+	if err != nil || b == nil {
+		r.Logf("constructor %s refused its arguments: %v", name, err)
+		return nil
+	}
+	src := &objSource{desc: "constructed:" + name, built: true}
+	src.nodes = append(src.nodes, node{desc: "constructed:" + name, obj: b, boxSeq: true})
+	collectBoxes("constructed:"+name, childrenOf(b), 1, &src.nodes)
+	r.Event("src-constructed", int(sim.HashString(name)&0xffff))
+	r.Probe("object-source-constructed")
 	return src
 }
